@@ -57,12 +57,20 @@ void parallel_range_thread_fn(
     std::atomic<IntT>& result_value,
     IntT end_value,
     size_t thread_num) {
-  IntT v;
-  while ((v = current_value.fetch_add(1)) < end_value) {
+  // Claim values with compare-and-swap rather than fetch_add, so current_value
+  // never moves past end_value. (With fetch_add, every thread increments it
+  // once more when it finishes, which wraps around and restarts the range if
+  // end_value is within num_threads of IntT's maximum.)
+  IntT v = current_value.load();
+  while (v < end_value) {
+    if (!current_value.compare_exchange_weak(v, v + 1)) {
+      continue; // Another thread claimed v; v now holds the updated value
+    }
     if (fn(v, thread_num)) {
       result_value = v;
       current_value = end_value;
     }
+    v = current_value.load();
   }
 }
 
@@ -122,8 +130,14 @@ void parallel_range_blocks_thread_fn(
     IntT end_value,
     IntT block_size,
     size_t thread_num) {
-  IntT block_start;
-  while ((block_start = current_value.fetch_add(block_size)) < end_value) {
+  // See the comment in parallel_range_thread_fn about why this doesn't use
+  // fetch_add. block_size evenly divides the range, so block_start + block_size
+  // never exceeds end_value.
+  IntT block_start = current_value.load();
+  while (block_start < end_value) {
+    if (!current_value.compare_exchange_weak(block_start, block_start + block_size)) {
+      continue;
+    }
     IntT block_end = block_start + block_size;
     for (IntT z = block_start; z < block_end; z++) {
       if (fn(z, thread_num)) {
@@ -132,6 +146,7 @@ void parallel_range_blocks_thread_fn(
         break;
       }
     }
+    block_start = current_value.load();
   }
 }
 
